@@ -10,6 +10,15 @@ variable {α G : Type} [AddCommGroup G] {o : GroupOps α}
 
 /-! ## pure unfoldings (no group law) -/
 
+/-- the translated statement `rand = 1 if i == 0 else 1 + secrets.randbelow(ec.n - 1)` gives member 0 the coefficient
+    1 and member `i ≥ 1` the coefficient `coef i = 1 + draw` -/
+theorem coefAt_eq (coef : Nat → Int) (i : Nat) : coefAt coef i = if i = 0 then 1 else coef i := by
+  unfold coefAt Gen.Schnorr.batch_rand
+  by_cases h : i = 0
+  · subst h; simp
+  · have h' : ¬ ((i : Int) = 0) := by exact_mod_cast h
+    rw [if_neg h', if_neg h]; omega
+
 theorem verify_unfold (prm : Params) (msg : Bytes) (xQ : Int) (sg : Sig) :
     verify o prm msg xQ sg = true ↔
       sigValid o sg = .ok () ∧ ∃ Q, o.liftX xQ = some Q ∧ challengeInt o prm msg xQ sg.r ≠ 0 ∧
@@ -332,7 +341,7 @@ theorem lin_sub_lin (coef coef' : Nat → Int) (j : Nat) (hagree : ∀ i, i ≠ 
       have : lin L prm coef (i + 1) rest = lin L prm coef' (i + 1) rest := sub_eq_zero.mp hrest
       rw [this]; abel
     · have hc : coefAt coef i = coefAt coef' i := by
-        unfold coefAt; split
+        rw [coefAt_eq, coefAt_eq]; split
         · rfl
         · exact hagree i hij
       rw [hc]
